@@ -64,6 +64,7 @@ class _Gate:
         self.order = {}          # stack index (str) -> real pids, newest lock file first
         self.pidmap = {}         # real pid (str) -> process index
         self.multi = False       # several stacks: call names carry "@<stack index>"
+        self.users = {}          # process index (str) -> login name the locker runs under (None: the real one)
 
     def say(self, what):
         self.w.write(what + "\n")
@@ -171,11 +172,16 @@ def _install_proxies(lock, g):
     def show(names):
         out = []
         for f in names:
-            m = re.search(r"^(exclusive|shared)-(.+)\.(\d+)$", real_os.path.basename(f))
-            if m and m.group(3) in g.pidmap:
-                out.append(("E" if m.group(1) == "exclusive" else "S") + str(g.pidmap[m.group(3)]))
+            # <kind>-<login name>.<pid>: the pid is what follows the LAST dot, the name is everything between (it may
+            # itself contain dots, dashes, digits); the name must be the one that locker runs under
+            b = real_os.path.basename(f)
+            kind, _, rest = b.partition("-")
+            name, _, pid = rest.rpartition(".")
+            if kind in ("exclusive", "shared") and pid.isdigit() and pid in g.pidmap and name and \
+                    g.users.get(str(g.pidmap[pid])) in (None, name):
+                out.append(("E" if kind == "exclusive" else "S") + str(g.pidmap[pid]))
             else:
-                out.append("?" + real_os.path.basename(f))
+                out.append("?" + b)
         return "[" + ",".join(out) + "]"
 
     def rank(f):
@@ -281,6 +287,7 @@ def _child(spec, rfd, wfd):
         init = json.loads(g.recv())
         g.pidmap = init["pidmap"]
         g.multi = bool(init.get("multi"))
+        g.users = init.get("users") or {}
         real_os.environ.pop("EUPS_LOCK_PID", None)
         if init.get("lock_pid") is not None:
             real_os.environ["EUPS_LOCK_PID"] = str(init["lock_pid"])
@@ -290,6 +297,9 @@ def _child(spec, rfd, wfd):
         from eups import hooks, utils
         handlers = []
         atexit.register = lambda f, *a, **kw: handlers.append((f, a, kw))
+        if spec.get("user"):
+            # the login name lock.py puts into its file names: utils.getUserName() answers from this cache of its own
+            utils.getUserName.who = {False: spec["user"], True: spec["user"]}
         base = spec.get("base", "default")
         if base == "none":
             hooks.config.site.lockDirectoryBase = None
@@ -509,13 +519,24 @@ def run_schedule(case, phases=None):
     paths = [list(sp.get("path", [0])) for sp in specs]
     procs = []
     try:
+        def subst(a):
+            # "$S1" in a command line stands for the directory of stack 1
+            for d in range(nd - 1, -1, -1):
+                a = a.replace("$S%d" % d, stacks[d])
+            return a
+
         for i, sp in enumerate(specs):
-            procs.append(Proc(i, {"kind": sp["kind"], "dirs": [stacks[d] for d in paths[i]], "ntry": sp.get("tries", 0) + 1,
-                                  "explicit": sp.get("explicit", True), "base": base, "argv": sp.get("argv")}))
+            argv = [subst(a) for a in sp["argv"]] if sp.get("argv") is not None else None
+            # a command line finds its stacks itself: $EUPS_PATH (env_path) and -Z/-z; `path` is what it should lock
+            dirs = [stacks[d] for d in (sp.get("env_path", paths[i]) if argv is not None else paths[i])]
+            procs.append(Proc(i, {"kind": sp["kind"], "dirs": dirs, "ntry": sp.get("tries", 0) + 1,
+                                  "explicit": sp.get("explicit", True), "base": base, "argv": argv,
+                                  "user": sp.get("user")}))
         pidmap = {str(p.pid): p.index for p in procs}
+        users = {str(i): sp.get("user") for i, sp in enumerate(specs)}
         for p, sp in zip(procs, specs):
             lp = sp.get("lp")
-            p.start({"pidmap": pidmap, "multi": multi,
+            p.start({"pidmap": pidmap, "multi": multi, "users": users,
                      "lock_pid": (procs[lp].pid if lp is not None and lp < n else (999999 if lp is not None else None))})
         order = {str(d): [] for d in range(nd)}     # per stack: real pids, newest lock file first
         trace, executed = [], []
@@ -641,6 +662,11 @@ def run_schedule(case, phases=None):
                     names.append((("E" if f.startswith("exclusive-") else "S") + str(pidmap[pid])) if pid in pidmap else "?" + f)
                 ent += sorted(names)
             listing.append(ent)
+        # what the commands declared where (real command lines only): product directories in each stack's ups_db
+        products = []
+        for d in range(nd):
+            db = os.path.join(stacks[d], "ups_db")
+            products.append(sorted(x for x in os.listdir(db) if os.path.isdir(os.path.join(db, x))) if os.path.isdir(db) else [])
         residue = listing[0] if not multi else listing
         if not any(listing):
             residue = []
@@ -648,7 +674,7 @@ def run_schedule(case, phases=None):
                 "violations": viols, "phase_steps": phase_steps,
                 "held": [p.held if p.nlocks is not None else None for p in procs],
                 "held_kinds": [getattr(p, "held_kinds", None) for p in procs],
-                "status": [p.status for p in procs]}
+                "status": [p.status for p in procs], "products": products}
     finally:
         for p in procs:
             if not p.ended:
